@@ -85,6 +85,8 @@ func (c *cacheConfig) validate() (err error) {
 		return newNegativeError("size", c.Size)
 	case c.Type == cacheTypeECS && c.ECSSize < 0:
 		return newNegativeError("ecs_size", c.ECSSize)
+	case c.Type == cacheTypeECS && c.Size > 0 && c.ECSSize == 0:
+		return newNotPositiveError("ecs_size", c.ECSSize)
 	default:
 		// Go on.
 	}
